@@ -129,6 +129,23 @@ def run(R):
                 R.ok("C19.flag", key, "listed writer", c.loc())
             else:
                 R.violation("C19.flag", key, "unexpected writer of an atomic flag: %s in %s" % (short(c.name), f.path), [c.loc()])
+    # readers: only the three input loops may sample the flag; a load deeper down (e.g. inside the printer) splits a line's output
+    allowed_readers = {L.FILE_EXEC, L.FOLLOW_EXEC, L.JOIN_EXEC}
+    for f in P.fns.values():
+        if f.target != "lib":
+            continue
+        for c in PR.calls_matching(f, L.ATOMIC_LOAD):
+            owner = f
+            while owner.kind == "Closure" and owner.parent_key in P.fns:
+                owner = P.fns[owner.parent_key]
+            if owner.spath in allowed_readers:
+                R.ok("C19.flag", "reader|" + owner.spath.split("::")[-2] + "::" + owner.spath.split("::")[-1], "input loop", c.loc(), nontrivial=False)
+            elif owner.spath.startswith("sqlgrep::table_editor") or owner.spath.startswith("sqlgrep::python_wrapper"):
+                continue
+            else:
+                R.violation("C19.flag", "reader|" + owner.spath,
+                            "%s samples an atomic flag: an interrupt observed below the line loop (e.g. while printing the rows of one line) leaves "
+                            "output that is not a prefix of the uninterrupted output" % owner.path, [c.loc()])
     R.floor("C19.flag", 2)
     R.floor("C19.sample", 2)
     R.assume("signal delivery timing and the prefix relation between interrupted and uninterrupted output are not decided; "
